@@ -1460,6 +1460,9 @@ pub fn run_any(c: &RegOrProbe) -> CaseReport {
 }
 
 fn replay(v: &Value) -> CaseReport {
+    if let Some(a) = v.get("refused_reentrant").and_then(|a| a.as_u64()) {
+        return refused_reentrant_probe(a as u8);
+    }
     if let Some(a) = v.get("inflight_anchor").and_then(|a| a.as_array()) {
         return inflight_anchor(a[0].as_u64().unwrap_or(0) as u8, a[1].as_u64().unwrap_or(600));
     }
@@ -1713,7 +1716,7 @@ pub static C18: PropDef = PropDef {
     shrink_iters: 600,
     worker: w18,
     replay,
-    extra: None,
+    extra: Some(c18_extra),
 };
 
 use std::sync::atomic::AtomicBool;
@@ -1824,6 +1827,100 @@ fn inflight_extra(def: &PropDef, args: &WorkerArgs, report: &mut WorkerReport) {
         let rep = inflight_anchor(variant, hold);
         if let Some(v) = report.absorb(def, &rep, &known) {
             report.violation = Some((v.key, v.msg, json!({"inflight_anchor": [variant, hold]})));
+            return;
+        }
+    }
+}
+
+// ---- C14 / C18: a refused registration whose action owns something that goes back into the
+// registry when it is released (an RAII guard that unregisters another action on drop, the last
+// handle of an iterator). The refused action must be released where that is harmless - not while
+// the registering call still holds the registry's writer lock.
+struct UnregisterOnDrop(Option<SigId>);
+impl Drop for UnregisterOnDrop {
+    fn drop(&mut self) {
+        if let Some(id) = self.0.take() {
+            registry::unregister(id);
+        }
+    }
+}
+
+/// variant 0: SIGKILL, 1: SIGSTOP through `register_signal_unchecked`; 2: SIGKILL through
+/// `register_unchecked`; 3: an out-of-range number through the checked `register`
+pub fn refused_reentrant_probe(variant: u8) -> CaseReport {
+    let (recs, end) = crate::forkrun::fork_stream(6_000, move |fd| {
+        crate::vsched::install();
+        let dummy = match unsafe { registry::register(libc::SIGUSR2, || ()) } {
+            Ok(id) => id,
+            Err(_) => {
+                crate::forkrun::emit(fd, &json!({"k": "infra"}));
+                return;
+            }
+        };
+        let guard = UnregisterOnDrop(Some(dummy));
+        crate::forkrun::emit(fd, &json!({"k": "calling"}));
+        let r = std::panic::catch_unwind(std::panic::AssertUnwindSafe(move || unsafe {
+            match variant % 4 {
+                0 => registry::register_signal_unchecked(libc::SIGKILL, move || {
+                    let _ = &guard;
+                }),
+                1 => registry::register_signal_unchecked(libc::SIGSTOP, move || {
+                    let _ = &guard;
+                }),
+                2 => registry::register_unchecked(libc::SIGKILL, move |_| {
+                    let _ = &guard;
+                }),
+                _ => registry::register(1000, move || {
+                    let _ = &guard;
+                }),
+            }
+        }));
+        let out = match r {
+            Ok(Ok(_)) => "ok",
+            Ok(Err(_)) => "err",
+            Err(_) => "panic",
+        };
+        // the guard went with the refused action: the dummy is gone, and the registry still works
+        let again = registry::unregister(dummy);
+        let works = unsafe { registry::register(libc::SIGUSR2, || ()) }.is_ok();
+        crate::forkrun::emit(fd, &json!({"k": "returned", "out": out, "dummy_still_registered": again, "registry_usable": works}));
+        crate::forkrun::emit(fd, &json!({"k": "done"}));
+    });
+    let mut rep = CaseReport::default();
+    rep.class("refused-registration-with-reentrant-capture");
+    rep.nontrivial = true;
+    rep.hash = hash_of(&("refused-reentrant", variant));
+    rep.sample = Some(json!({"refused_reentrant": variant, "records": recs, "end": format!("{:?}", end)}));
+    let called = recs.iter().any(|r| r["k"] == "calling");
+    let returned = recs.iter().find(|r| r["k"] == "returned");
+    match (&end, returned) {
+        (crate::forkrun::End::Timeout, None) if called => {
+            let what = ["register_signal_unchecked(SIGKILL)", "register_signal_unchecked(SIGSTOP)", "register_unchecked(SIGKILL)", "register(1000)"][variant as usize % 4];
+            rep.viol("C18/deadlock", format!("{} - refused by the OS - never returned: its action (which owns a guard that unregisters another action when released) was destroyed while the registering call still held the registry's writer lock", what));
+            rep.viol("C14/hang", format!("{} with an action that owns an unregister-on-drop guard never returned", what));
+        }
+        (_, Some(r)) => {
+            if r["out"] != "err" {
+                rep.viol("C14/outcome/refused-reentrant", format!("a registration the OS refuses returned {}", r["out"]));
+            }
+            if r["dummy_still_registered"] == true {
+                rep.viol("C14/leak", "the action of a refused registration was never released (the guard it owned did not run)".into());
+            }
+            if r["registry_usable"] != true {
+                rep.viol("C14/registry-disturbed", "after a refused registration the registry refused an ordinary one".into());
+            }
+        }
+        _ => rep.inconclusive = Some(format!("refused-reentrant probe ended {:?}", end)),
+    }
+    rep
+}
+
+fn c18_extra(def: &PropDef, _args: &WorkerArgs, report: &mut WorkerReport) {
+    let known = Known::load();
+    for v in 0..4u8 {
+        let rep = refused_reentrant_probe(v);
+        if let Some(x) = report.absorb(def, &rep, &known) {
+            report.violation = Some((x.key, x.msg, json!({"refused_reentrant": v})));
             return;
         }
     }
